@@ -1,6 +1,7 @@
 package props
 
 import (
+	"context"
 	"errors"
 	"fmt"
 	"os"
@@ -150,6 +151,8 @@ var exprCtxs = []nestCtx{
 	{"frame-bound", "SUM(a) OVER (ORDER BY a ROWS ", " PRECEDING)"}, {"agg-order-by", "STRING_AGG(a, ',' ORDER BY ", ")"}, {"within-group", "PERCENTILE_CONT(0.5) WITHIN GROUP (ORDER BY ", ")"},
 	{"like-pattern", "a LIKE (", ")"}, {"cmp-rhs", "a = (", ")"}, {"and-rhs", "a = 1 AND (", ")"}, {"or-rhs", "a = 1 OR (", ")"}, {"concat-rhs", "a || (", ")"}, {"arith-rhs", "a + (", ")"},
 	{"is-null", "(", ") IS NULL"}, {"json-rhs", "a -> (", ")"},
+	// prefix operators re-entered through the right operand of a binary operator (no parenthesis in between)
+	{"not-cmp", "NOT a = ", ""}, {"not-plus", "NOT a + ", ""}, {"not-like", "NOT a LIKE ", ""}, {"not-json", "NOT a -> ", ""}, {"not-concat", "NOT a || ", ""},
 }
 
 // query -> query contexts
@@ -267,13 +270,13 @@ func c02Cases(quick bool) []c02Case {
 }
 
 type stackMon struct {
-	calls       int64
-	maxParser   int
-	maxTok      int
-	maxAct      map[string]int
-	overflowed  bool
-	pcs         []uintptr
-	counts      map[string]int
+	calls      int64
+	maxParser  int
+	maxTok     int
+	maxAct     map[string]int
+	overflowed bool
+	pcs        []uintptr
+	counts     map[string]int
 }
 
 var sm *stackMon
@@ -483,6 +486,27 @@ func c02Limits(a *ChildArgs) {
 				a.Rec.Viol(fmt.Sprintf("C02/tokens/%s/under-limit-rejected", sh.name), "input within the token limit is not rejected for that reason", fmt.Sprintf("%d tokens written (limit %d) rejected with E1007", mt+delta, mt), wit)
 			}
 			c02CheckStack(a, "tokens/"+sh.name, wit)
+		}
+	}
+	// exactly at the limit: what follows the last token (nothing, blanks, a newline, a comment) is not a token
+	for _, entry := range []string{"Tokenize", "TokenizeContext"} {
+		for ti, tail := range []string{"", " ", "\n", "\r\n", "   \n\n", " -- end", "/* end */", "\n-- end\n"} {
+			s := strings.Repeat("1,", mt/2-1) + "1" // mt-1 tokens
+			s = "a " + s + tail                     // exactly mt tokens
+			a.Rec.Count("evaluations", 1)
+			a.Rec.Distinct("cases", fmt.Sprintf("tokens-at-limit/%s/%d", entry, ti))
+			tk := mustTokenizer()
+			var toks []models.TokenWithSpan
+			var err error
+			if entry == "Tokenize" {
+				toks, err = tk.Tokenize([]byte(s))
+			} else {
+				toks, err = tk.TokenizeContext(context.Background(), []byte(s))
+			}
+			if c := code(err); c == "E1007" {
+				a.Rec.Viol(fmt.Sprintf("C02/tokens/at-limit/%s/tail-%d/rejected", entry, ti), "input exactly at the limit is not rejected for that reason",
+					fmt.Sprintf("%s: exactly %d tokens followed by %q rejected with E1007", entry, mt, tail), map[string]interface{}{"entry": entry, "tail": tail, "tokens_returned": len(toks)})
+			}
 		}
 	}
 	// comments are not tokens: they must not count against the token limit
